@@ -1,6 +1,7 @@
 package world
 
 import (
+	"fmt"
 	"math/big"
 
 	"github.com/idena-network/idena-go/blockchain/attachments"
@@ -337,4 +338,93 @@ func Menu() []Tmpl {
 		}},
 	}
 	return m
+}
+
+// Dyn builds a template from a name of the form
+//   online A | offline A | kill A | undelegate A | delegate A->B | killDelegator A->B |
+//   killInvitee A->B | invite A->B | send A->B N | replenish A->B N
+// (actor names as in ActorNames); nil if the name has no such form.
+func Dyn(name string) *Tmpl {
+	actor := func(s string) (int, bool) {
+		for i, n := range ActorNames {
+			if n == s {
+				return i, true
+			}
+		}
+		return 0, false
+	}
+	var verb, rest string
+	if i := indexByte(name, ' '); i > 0 {
+		verb, rest = name[:i], name[i+1:]
+	} else {
+		return nil
+	}
+	var amount int64
+	if j := indexByte(rest, ' '); j > 0 {
+		var n int64
+		if _, err := fmt.Sscan(rest[j+1:], &n); err != nil {
+			return nil
+		}
+		amount, rest = n, rest[:j]
+	}
+	from, to := rest, ""
+	if k := indexStr(rest, "->"); k > 0 {
+		from, to = rest[:k], rest[k+2:]
+	}
+	f, ok := actor(from)
+	if !ok {
+		return nil
+	}
+	var tp *common.Address
+	if to != "" {
+		ti, ok := actor(to)
+		if !ok {
+			return nil
+		}
+		tp = PA(ti)
+	}
+	mk := func(sp Spec) *Tmpl {
+		return &Tmpl{Name: name, Build: func(b *B) *types.Transaction { return b.Tx(sp) }}
+	}
+	switch verb {
+	case "online":
+		return mk(Spec{From: f, Type: types.OnlineStatusTx, Payload: Online(true)})
+	case "offline":
+		return mk(Spec{From: f, Type: types.OnlineStatusTx, Payload: Online(false)})
+	case "kill":
+		return mk(Spec{From: f, Type: types.KillTx})
+	case "undelegate":
+		return mk(Spec{From: f, Type: types.UndelegateTx})
+	case "delegate":
+		return mk(Spec{From: f, To: tp, Type: types.DelegateTx})
+	case "killDelegator":
+		return mk(Spec{From: f, To: tp, Type: types.KillDelegatorTx})
+	case "killInvitee":
+		return mk(Spec{From: f, To: tp, Type: types.KillInviteeTx})
+	case "invite":
+		return mk(Spec{From: f, To: tp, Type: types.InviteTx, Amount: replica.Dna(amount)})
+	case "send":
+		return mk(Spec{From: f, To: tp, Type: types.SendTx, Amount: replica.Dna(amount)})
+	case "replenish":
+		return mk(Spec{From: f, To: tp, Type: types.ReplenishStakeTx, Amount: replica.Dna(amount)})
+	}
+	return nil
+}
+
+func indexByte(s string, c byte) int {
+	for i := 0; i < len(s); i++ {
+		if s[i] == c {
+			return i
+		}
+	}
+	return -1
+}
+
+func indexStr(s, sub string) int {
+	for i := 0; i+len(sub) <= len(s); i++ {
+		if s[i:i+len(sub)] == sub {
+			return i
+		}
+	}
+	return -1
 }
